@@ -35,7 +35,8 @@ def _regen_xlsx(ctx):
 
 def _regen_profiletables(ctx):
     import framework as F
-    return _regen_registry(ctx) and F.harness_regen(ctx, 'profiletables', 'ProfileTables.lean')
+    return (_regen_registry(ctx) and F.harness_regen(ctx, 'profiletables', 'ProfileTables.lean') and
+            F.harness_regen(ctx, 'profiletypes', 'ProfileTypes.lean') and F.harness_regen(ctx, 'profilestrs', 'ProfileStrs.lean'))
 
 
 def _regen_gendigest(ctx):
